@@ -21,13 +21,15 @@ CLAIM = dict(
          "requested unit (convert_unit); it denotes the same physical quantity (convert_phys); the common-factor "
          "cancellation heuristic is irrelevant for the value (convert_value); converting back restores the magnitude "
          "(convert_roundtrip); converting through an intermediate unit agrees with converting directly "
-         "(convert_transitive); a zero converts to any unit (convert_zero). The model executed at Float must agree "
+         "(convert_transitive); a zero converts to any unit (convert_zero); a conversion succeeds exactly when the "
+         "quantity is zero or source and target have the same dimension vector (convert_ok_iff, any NumOps instance, "
+         "via the uniqueness of canonical base representations). The model executed at Float must agree "
          "bit-for-bit with the real convert_to on generated and (thorough) all ordered pairs of same-dimension "
          "prelude units; an independent oracle recomputes value·F(src)/F(tgt) from the direct unit definitions.",
     design_ref="DESIGN.md section 5 C04",
     note="Exact-arithmetic theorems; f64 rounding is covered only by the bit-exact correspondence and the "
          "tolerance oracle. The displayed `× target` form (conversion target with magnitude ≠ 1) is checked by C05's "
-         "display stream, not here. The criterion for *failure* of a conversion (different base representations) is "
-         "exercised by the oracle (different-dimension stream), not yet a theorem.",
+         "display stream, not here. The criterion for success/failure of a conversion is the theorem convert_ok_iff and is "
+         "exercised by the oracle's different-dimension stream.",
     technique="Lean 4 proof over an abstract lawful field + bit-exact differential correspondence at Float",
 )
